@@ -16,11 +16,26 @@ from pyvc import stubs, aio
 from pyvc.aio import VS, is_exc, cls_of, OUTCOMES, VStar
 
 I = z3.IntSort()
-F = z3.Function('excs_matching_only', VS, ClsS, I, VS)
+# `only` is what isinstance() accepts: a class or a tuple of classes -- modelled as a PAIR of classes (a single class
+# c is the pair (c, c))
+_F = z3.Function('excs_matching_only', VS, ClsS, ClsS, I, VS)
+
+
+def F(R, only, n):
+    return _F(R, only[0], only[1], n)
+
+
+def terms(only):
+    """the pair of class terms of a filter value (VClass or VTuple of two VClass)"""
+    if isinstance(only, VClass):
+        return (only.term, only.term)
+    if isinstance(only, VTuple) and len(only.items) == 2 and all(isinstance(c, VClass) for c in only.items):
+        return (only.items[0].term, only.items[1].term)
+    raise Unsupported('filter value %r' % (only,))
 
 
 def match(r, only):
-    return z3.And(is_exc(r), sub(cls_of(r), only))
+    return z3.And(is_exc(r), z3.Or(sub(cls_of(r), only[0]), sub(cls_of(r), only[1])))
 
 
 def unfoldF(R, only, n):
@@ -33,7 +48,11 @@ def mk_only(E):
     c = VClass('sym:only', term=E.fresh('only', ClsS))
     E.need_hierarchy()
     E.assume(sub(c.term, EXC['BaseException'].term))
-    return c
+    if E.choose([('a_class', None), ('a_tuple_of_classes', None)], 'kind of filter') == 'a_class':
+        return c
+    c2 = VClass('sym:only2', term=E.fresh('only2', ClsS))
+    E.assume(sub(c2.term, EXC['BaseException'].term))
+    return VTuple([c, c2])
 
 
 NO_TB = z3.Function('traceback_is_None', ValS, z3.BoolSort())
@@ -55,6 +74,26 @@ def engine(E):
                         'order"')
         raise PathEnd()
     Bn['__gather_first_failure_wins__'] = plain_gather
+
+    NON_EXC = ('tuple', 'list', 'str', 'int', 'dict', 'set', 'frozenset', 'type', 'bool', 'float', 'bytes')
+
+    def _type(E_, a, k):
+        """type(x) of a filter value: `type` for a class, `tuple` for a tuple of classes"""
+        if len(a) == 1 and isinstance(a[0], VClass):
+            return Bn['type']
+        if len(a) == 1 and isinstance(a[0], VTuple):
+            return Bn['tuple']
+        raise Unsupported('type(%r)' % (a,))
+    Bn['type'] = VClass('type', ctor=_type)
+
+    def _isinst_ext(E_, o, c):
+        if isinstance(c, VClass) and c.name == 'type' and isinstance(o, (VClass, VTuple)):
+            return VBool(isinstance(o, VClass))
+        if isinstance(c, VClass) and c.name in NON_EXC and isinstance(o, VVal) and o.t.sort() == ValS:
+            # an outcome that is an exception is never an instance of these
+            return VBool(z3.And(z3.Not(is_exc(o.t)), E.fresh('result_is_a_' + c.name, z3.BoolSort())))
+        return None
+    Bn['__isinstance_ext__'] = _isinst_ext
 
     def _any_all(name):
         def fn(E_, a, k):
@@ -190,7 +229,7 @@ def t_gather_excs(E):
             raise Unsupported('gather_excs loop is not over the gathered results', stn)
         R = src.t
         st['R'] = R
-        only = st['only'].term
+        only = terms(st['only'])
 
         def inv(i):
             E.assume(unfoldF(R, only, i + 1))      # definitional unfolding of the spec function at i+1
@@ -227,7 +266,7 @@ def t_gather_excs(E):
         R = OUTCOMES(aws)
         n = z3.Length(R)
         E.oblige(f.qualname + '/ensures.yields_exactly_the_matching_exceptions_in_input_order',
-                 E.w['gen_out'] == F(R, only.term, n))
+                 E.w['gen_out'] == F(R, terms(only), n))
         default_only_obligation(E, fn, mod, f.qualname)
     E.run_paths(body)
 
@@ -237,11 +276,11 @@ def spec_gather_excs():
         aws = a.aws.t if isinstance(a.aws, VSeq) else a.aws.seq
         R = OUTCOMES(aws)
         E.assume(z3.Length(R) == z3.Length(aws))
-        S = F(R, a.only.term, z3.Length(R))
+        S = F(R, terms(a.only), z3.Length(R))
         # facts about the spec function that callers may use (each a consequence of its definition):
         # every element is a matching exception, and it is empty only if no outcome matches
         j = E.fresh('j', I)
-        E.assume(z3.Implies(z3.Length(S) > 0, z3.And(is_exc(S[0]), sub(cls_of(S[0]), a.only.term))))
+        E.assume(z3.Implies(z3.Length(S) > 0, match(S[0], terms(a.only))))
         return VSeq(S, VVal)
     return Spec('aiuti.asyncio.gather_excs',
                 params=[('aws', None), ('only', lambda E: EXC['BaseException'])],
@@ -280,7 +319,7 @@ def t_raise_first_exc(E):
         E.cover(f.qualname + '/requires')
         E.canary(f.qualname + '/canary@entry')
         R = OUTCOMES(aws)
-        S = F(R, only.term, z3.Length(R))
+        S = F(R, terms(only), z3.Length(R))
         try:
             r = E.await_(E.call(f, [VSeq(aws, VVal), only], {}), None)
             E.cover(f.qualname + '/exit[return]')
